@@ -234,6 +234,8 @@ def _histories(max_len=2):
     # the same catalog objects measure, the caches are rebuilt through *other* handles of the same directories, the first
     # objects measure again: nothing remembered in an object may stand in for the state of the cache
     out += [("measure_same", "other_handle_other_edges"), ("measure_same", "other_handle_unbinned"), ("same", "other_handle_other_edges")]
+    # trees cached for edges that differ from the requested ones only in the sixth digit (records lie between the two edges)
+    out += [("nearly_same_edges",)]
     return out
 
 
@@ -290,6 +292,10 @@ def _run_histories(max_len=2, limit=None):
                         cats[2].build_trees([0.1, 0.9, 1.0], closed="left", force=True)
                     elif op == "reopen":
                         cats = [yaw.Catalog(c.cache_directory) for c in cats]
+                    elif op == "nearly_same_edges":
+                        for c in cats:
+                            if c.has_redshifts:
+                                c.build_trees([0.1, 0.399998, 0.700002, 1.0], closed="right")
                     elif op == "measure_same":
                         measure(cats, cfg)
                     elif op in ("other_handle_other_edges", "other_handle_unbinned"):
